@@ -11,6 +11,8 @@ among those blocks.  Hence I1 holds after any crash history (`sys_i1_replayed`).
 of a meta of an attempted bulk (`sys_only_ingested`).
 (4) A re-delivered document: the pipeline keeps the first delivery of its ID; when re-deliveries carry the same tokens
 the stored document carries them (`sys_i1_redelivered`), so `hfirst` is not needed.
+**Restriction:** every theorem here that takes `DistinctBulks` / `NonEmptyDocs` covers bulks WITHOUT nested metas only
+(`cons_sys_hd_hs_false_for_nested_witness`, Consistency/SysHyps.lean; see the header of Proofs/SystemClosed.lean).
 -/
 namespace SV.Sys
 open SV SV.Spec SV.ProxyE2E
